@@ -272,6 +272,8 @@ while true:
     end
 end""", ['s', 'a']),
 ("flip_uninit", "x = 0\nwhile true:\n    y = 1 - y\n    x = x + y\nend", ["x", "y"]),      # D27: sympy summation fails on the whole summand with base -1
+("init_from_var", "x = 0\ny = x + 1\nz = 0\nwhile true:\n    x = x + 1\n    z = z + y\nend", ["x", "y", "z"]),      # D28: constant defined from the initial value of a loop variable
+("init_from_random", "b = Bernoulli(1/2)\ny = 2*b + 1\nz = 0\nx = 1\nwhile true:\n    x = 2*x\n    z = z + y*x\nend", ["z", "y", "x"]),
 ("d18_uninit_under_guard", """x = 3
 c = 0
 while c == 1:
@@ -396,7 +398,16 @@ def gen_program(rnd: random.Random, allow_params=True):
 def family(seed, n, allow_params=True):
     rnd = random.Random(seed)
     out = []
+    rnd2 = random.Random(seed * 7919 + 13)          # separate stream: the programs of earlier versions of the family stay the same
     for i in range(n):
         src, goals = gen_program(rnd, allow_params)
+        if rnd2.random() < 0.2:
+            # a constant defined from the INITIAL value of a variable the loop changes (D28), used by one more accumulator
+            lines = src.split('\n'); wi = next(k for k, l in enumerate(lines) if l.startswith('while '))
+            base = goals[0]
+            lines[wi:wi] = [f'k = {base} + 1' if rnd2.random() < 0.5 else f'k = 2*{base}', 'w = 0']
+            ei = max(k for k, l in enumerate(lines) if l.strip() == 'end')
+            lines[ei:ei] = ['    w = w + k']
+            src = '\n'.join(lines); goals = list(goals) + ['w']
         out.append((f'gen{seed}_{i}', src, goals))
     return out
